@@ -66,7 +66,12 @@ Decided(S, w, j) ==
   ELSE IF opt.interactive /\ NoOut(S) THEN TRUE
   ELSE IF j = Len(w) THEN FALSE
   ELSE Decided(StepI(R, S, w[j + 1]), w, j + 1)
-MatchDecided == eof \/ Decided(Start(R, sc + 1, bol), buf, 0)
+\* A "new" buffer reads from what yyin designates at that moment.
+ReadFile == IF fresh THEN yyin ELSE fid
+\* (through stdio the end-of-file indicator of an exhausted source is sticky: the scanner's next request is
+\* answered with "nothing" by the stream itself, without the source being asked - an empty read nobody sees)
+SilentEof == opt.stdio /\ ReadFile # 0 /\ ReadFile <= Len(files) /\ files[ReadFile] = <<>>
+MatchDecided == eof \/ Decided(Start(R, sc + 1, bol), buf, 0) \/ SilentEof
 
 CandSeq(w, b) == SortSeq(SetToSeq(Scan(R, Start(R, sc + 1, b), w, 0, {})[1]), Better)
 
@@ -118,7 +123,6 @@ Call ==
 \* input).  While scanning this may happen only if the match is not yet
 \* decided (no over-read); inside an action (yyinput) only if nothing is
 \* buffered.  A "new" buffer reads from what yyin designates at that moment.
-ReadFile == IF fresh THEN yyin ELSE fid
 Read(got) ==
   \* (through stdio an exhausted source may be asked again: the scanner does not see every empty read)
   /\ cur # 0 /\ (~eof \/ (got = 0 /\ opt.stdio)) /\ ReadFile # 0 /\ ReadFile <= Len(files)
@@ -221,7 +225,7 @@ EofRestart ==
 \* (through stdio the end-of-file indicator is sticky: an exhausted source need not be seen to be asked again)
 AtEnd == /\ cur # 0 /\ buf = <<>>
          /\ \/ eof /\ (fid # 0 => files[fid] = <<>>)
-            \/ opt.stdio /\ ReadFile # 0 /\ ReadFile <= Len(files) /\ files[ReadFile] = <<>>
+            \/ SilentEof
 
 \* ... or its end-of-input value, only when no input remains at all (with a
 \* user yywrap only after yywrap said so: WrapRet1 returns to the action)
